@@ -44,6 +44,51 @@ CHECKS = {
                      "point never share a file, statements without a point between them do, rotated files carry their opening moment, plus the C14 oracle. "
                      "The unchanged tree drifted off the schedule; repaired by a fix: commit.",
                 note="local daily rotation is judged on days without DST transition; a restart re-anchors the schedule"),
+    "C03": dict(cat="exploration", ref="6/C03", tech="runtime monitoring: offline exactly-once/order checker over issue log + recording-sink log; free-running (TSan/ASan) and cooperatively scheduled executions with hook-window injection",
+                text="Real frontend threads, real backend and recording sinks over generated topologies/backend options/message sizes. Mode F: real concurrency with "
+                     "random delays in the backend's windows under dbg/ASan/TSan/release builds; mode S: deterministic cooperative schedules (ManualBackendWorker) with "
+                     "operations injected between queue reads and inside the batch loop, threads exiting before the first poll. Offline checker: exactly once per "
+                     "(logger, sink), per-thread order, payload integrity, nothing on unattached sinks.",
+                note="interleavings in mode S are at operation/hook granularity; instruction-level simultaneity only through mode F"),
+    "C05": dict(cat="exploration", ref="6/C05", tech="runtime monitoring: offline timestamp-order checker with lateness justification under an interposed virtual clock (mode S) and the real clock (mode F)",
+                text="Virtual clock interposed at link time (clock_gettime), producers parked between clock read and enqueue, clock jumps around the grace period, "
+                     "backend stepped inside its windows, first-time loggers inside the cache-refresh window, small hard limits. Every inversion in a sink's write "
+                     "order must be justified by the overtaken statement's enqueue lateness > grace. Found the first-time-logger window defect (repaired).",
+                note="System-clock loggers only; Tsc timestamps are an estimate and are not judged"),
+    "C06": dict(cat="exploration", ref="6/C06", tech="runtime monitoring: online post-condition check on the flushing thread (sink write+flush events, file content through a fresh descriptor) in modes F and S",
+                text="Every flush_log() return is judged at once with the backend still running: own earlier statements (and, with ordering enabled, other threads' "
+                     "statements that completed before the call) written to all sinks, each sink flushed afterwards, readable from the real file. Mode S drives the "
+                     "first-time-logger race inside the backend's cache-refresh/timestamp window (defect found and repaired). 'Returns' judged in backend idle cycles.",
+                note="cross-thread demand only with non-zero grace period and System clock, as the property states"),
+    "C08": dict(cat="exploration", ref="6/C08", tech="runtime monitoring: offline delivered-xor-reported checker over boolean results, sink log and parsed error-notifier counts",
+                text="Dropping queues (bounded 2 KiB, unbounded 1->4 KiB) flooded in modes S/F with the boolean result of every log call kept; delivered = returned true, "
+                     "exactly once, in order; bounded: notifier drop counts per OS thread = false returns. Control requests under flood must take effect. Found "
+                     "and repaired: drop counts lost when an exited thread's context is reclaimed after a flush request.",
+                note="oversize statement on an unbounded dropping queue throws (C02) and counts as not enqueued"),
+    "C10": dict(cat="fault_enumeration", ref="6/C10", tech="fault enumeration at runtime: every (position, format-fault kind) and every (sink, call index) write/flush throw enumerated for a 12-statement history, larger histories sampled; offline checker",
+                text="Faults are injected into the real backend (run-time format mismatches, user formatter throwing std / non-std / int, backtrace without init, "
+                     "scripted sink throws) and the sink logs are checked: nothing else disturbed, at most one statement missing on the throwing sink and those after "
+                     "it, notifier called, flush returns, probe processed. Found and repaired the non-std-exception livelock.",
+                note="single-line statements; no sink throw inside a backtrace replay"),
+    "C16": dict(cat="exploration", ref="6/C16", tech="runtime monitoring: side-effect counters in log arguments + offline per-sink acceptance model over recording sinks",
+                text="Library macros (LOG_*, LOG_DYNAMIC) with a side-effecting argument; logger level, per-sink thresholds, scripted filters and override patterns drawn "
+                     "per scenario; static and dynamic statements share 1-2 transit slots. Judged: evaluation <=> level >= logger level; per-sink acceptance model; "
+                     "reported level/description; per-sink pattern.",
+                note="level/filter changes happen at exact points (logging thread / flush-quiescent)"),
+    "C17": dict(cat="exploration", ref="6/C17", tech="runtime monitoring: ASan/TSan/assert builds under create-log-remove-recreate workloads + offline incarnation checker and sink-destruction accounting",
+                text="Loggers created, logged through, removed (blocking / non-blocking) and re-created under the same names over shared recording sinks, CsvWriter loops, "
+                     "concurrent create_or_get; statements queued while removal is noticed (mode S injects inside clean-up windows). Checker: nothing lost across "
+                     "removal, nothing on another incarnation's sinks, get_logger==nullptr after blocking removal, idempotent lookups, sinks destroyed exactly once "
+                     "iff unreferenced; sanitizers for premature frees and races.",
+                note="documented usage contract respected by the workload"),
+    "C18": dict(cat="exploration", ref="6/C18", tech="runtime monitoring: reference ring model vs recording-sink sequence over generated store/flush/re-init histories; _GLIBCXX_ASSERTIONS + ASan",
+                text="Histories of LOG_BACKTRACE, ordinary statements, explicit flushes and re-initialisations (capacity 1..8) with the ring wrapping several times "
+                     "between flushes; the sink sequence must equal the model's exactly. The unchanged tree failed (index not reset); repaired.",
+                note="one logging thread per logger keeps the model exact"),
+    "C20": dict(cat="exploration", ref="6/C20", tech="runtime monitoring: retained-context count through the public ThreadContextManager API after logical drains; delivery checker; ASan/TSan",
+                text="Rounds of 1..512 real threads that log and exit between two backend idle periods (exactly 256 and 512 included), then retained contexts must equal "
+                     "live threads that logged; shrink requests take effect at once and lose nothing. Found and repaired the 8-bit invalid-context counter.",
+                note="drain is logical (backend reported all-empty), never timed"),
 }
 
 NOT_YET = "check not built yet in this revision (design in DESIGN.md section 6); not claimed until its harness exists"
